@@ -122,7 +122,7 @@ def classify_closure(c):
             kinds.add('uid')
         elif v.startswith('Option::from_residual(') and c.must_pass(s.bb, fact_is(r'.', ['ReferenceIdRequest'])):
             kinds.add('refid-none')
-        elif re.match(r'^Option::Some\{0: ExtensionField::into_owned\(ExtensionField::ReferenceIdResponse\{0: \(Option::branch\(ReferenceIdRequest::to_response\(\(\w+ as ReferenceIdRequest\)\.0, server_info__ntp_snapshot__bloom_filter\)\) as Continue\)\.0\}\)\}$', v) \
+        elif re.match(r'^Option::Some\{0: ExtensionField::into_owned\(ExtensionField::ReferenceIdResponse\{0: \(Option::branch\(ReferenceIdRequest::to_response\(\(\w+ as ReferenceIdRequest\)\.0, server_info\.ntp_snapshot\.bloom_filter\)\) as Continue\)\.0\}\)\}$', v) \
                 and c.must_pass(s.bb, fact_is(r'.', ['ReferenceIdRequest'])):
             kinds.add('refid')
         elif v == 'Option::Some{0: ExtensionField::NtsCookie{0: Cow::Owned{0: KeySet::encode_cookie(keyset, cookie)}}}' \
